@@ -125,3 +125,68 @@ func H_C16_docx_model_table_columns() {
 	}
 	vReach("end")
 }
+
+// H_C16_docx_vmerge_by_grid_column: a vertical merge is tracked by GRID column, not by the cell's index in its row: a
+// continuation cell that follows a wide (gridSpan) cell extends the merge root that starts in the same grid column.
+//
+//symgo:harness prop=C16 kernel=K1-docx-vmerge-grid-column
+//symgo:desc 3-column grid; row 1 = [A, B, C] with vMerge restart on one of them (enumerated which column m); row 2 spells the same grid with a cell of gridSpan 2 (symbolic digit) before or after the continuation cell so that the continuation cell's index in its row differs from its grid column where possible (layouts enumerated); optional third plain row: the root in column m has RowSpan 2, every other first-row cell RowSpan 1, the continuation cell is flagged
+func H_C16_docx_vmerge_by_grid_column() {
+	m := vAnyIntIn(0, 2)
+	d := vAnyByteOf("2")
+	mk := func(text string, gs bool, vm int) tableCellXML {
+		var c tableCellXML
+		if gs {
+			c.Properties.GridSpan.Val = string([]byte{d})
+		}
+		switch vm {
+		case 1:
+			c.Properties.VMerge = vMergeXML{XMLName: xml.Name{Local: "vMerge"}, Val: "restart"}
+		case 2:
+			c.Properties.VMerge = vMergeXML{XMLName: xml.Name{Local: "vMerge"}}
+		}
+		c.Paragraphs = []paragraphXML{vPara(text)}
+		return c
+	}
+	vm := func(c int) int {
+		if c == m {
+			return 1
+		}
+		return 0
+	}
+	row1 := tableRowXML{Cells: []tableCellXML{mk("A", false, vm(0)), mk("B", false, vm(1)), mk("C", false, vm(2))}}
+	var row2 tableRowXML
+	contIdx := 0
+	switch m {
+	case 0: // [cont, D(span 2)]
+		row2.Cells = []tableCellXML{mk("", false, 2), mk("D", true, 0)}
+		contIdx = 0
+	case 1: // [D, cont, E] - no wide cell fits beside a middle continuation in a 3-column grid
+		row2.Cells = []tableCellXML{mk("D", false, 0), mk("", false, 2), mk("E", false, 0)}
+		contIdx = 1
+	default: // [D(span 2), cont]: index 1, grid column 2
+		row2.Cells = []tableCellXML{mk("D", true, 0), mk("", false, 2)}
+		contIdx = 1
+	}
+	tbl := tableXML{Rows: []tableRowXML{row1, row2}}
+	if vAnyIntIn(0, 1) == 1 {
+		tbl.Rows = append(tbl.Rows, tableRowXML{Cells: []tableCellXML{mk("X", false, 0), mk("Y", false, 0), mk("Z", false, 0)}})
+	}
+	pt := NewTableParser(nil).ParseTable(tbl)
+	vAssert("row-count", len(pt.Rows) == len(tbl.Rows))
+	vAssert("first-row-cells", len(pt.Rows[0].Cells) == 3)
+	for c := 0; c < 3; c++ {
+		want := 1
+		if c == m {
+			want = 2
+		}
+		vAssert("row-span-follows-grid-column", pt.Rows[0].Cells[c].RowSpan == want)
+	}
+	vAssert("continuation-flag", pt.Rows[1].Cells[contIdx].IsMergedContinuation)
+	for i, c := range pt.Rows[1].Cells {
+		if i != contIdx {
+			vAssert("second-row-cells-unmerged", c.RowSpan == 1 && !c.IsMergedContinuation)
+		}
+	}
+	vReach("end")
+}
